@@ -21,6 +21,8 @@ EXPLANATION = (
     "iterated to a fixpoint; every `ValueData::Number(x)` construction is an obligation."
 )
 
+KEEP_ADTS = ("core::result::Result", "core::option::Option", "core::ops::control_flow::ControlFlow",
+             "core::num::FpCategory")
 FIN = ("fin",)
 NZ = ("nz",)
 FINNZ = ("finnz",)
@@ -192,6 +194,18 @@ class FinWalker(kwalk.Walker):
         if k == "agg" and rv["ak"] == "adt":
             self.ctx.on_aggregate(self, env, dst_place, rv)
         super().assign(env, dst_place, rv)
+        # keep the environment small: only facts that matter for finiteness survive
+        d = self.norm(env, dst_place)
+        v = env.get(d)
+        if isinstance(v, tuple) and v:
+            if v[0] in ("str", "const", "fn"):
+                del env[d]
+            elif v[0] == "var" and v[1] not in KEEP_ADTS:
+                del env[d]
+            elif v[0] == "ref":
+                t = self.body.ty(dst_place["t"])
+                if "f64" not in t["s"]:
+                    del env[d]
 
     # gates: refine when branching on a gate's result
     def step_switch(self, t, env):
